@@ -39,6 +39,41 @@ pub fn emit_tables<T: Sc>(out: &mut Out, recipe: &Recipe, alpha: &[T]) {
     }
 }
 
+/// quality of nalgebra's SVD (the decomposition the library calls) on the weighted basis matrix of
+/// this step, measured in f64: ‖A − UΣVᵀ‖_max/‖A‖_max, ‖UᵀU − 1‖_max, ‖VᵀV − 1‖_max.  The driver
+/// uses it as the backward error of the SVD *oracle* in its perturbation bounds (the library does
+/// not expose its decomposition; the matrix and the routine are the same, so is the result).
+pub fn emit_svdq<T: Sc>(out: &mut Out, recipe: &Recipe, alpha: &[T], w: &Option<Vec<T>>) {
+    let mut a = recipe.phi::<T>(alpha);
+    if let Some(w) = w {
+        if w.len() != a.nrows() {
+            return;
+        }
+        for j in 0..a.ncols() {
+            for i in 0..a.nrows() {
+                a[(i, j)] = a[(i, j)] * w[i];
+            }
+        }
+    }
+    if a.nrows() == 0 || a.ncols() == 0 || !a.iter().all(|v| v.is_finite()) {
+        return;
+    }
+    let svd = a.clone().svd(true, true);
+    let (u, vt) = match (svd.u.as_ref(), svd.v_t.as_ref()) {
+        (Some(u), Some(vt)) => (u.map(|v| v.f()), vt.map(|v| v.f())),
+        _ => return,
+    };
+    let sig = DMatrix::<f64>::from_diagonal(&svd.singular_values.map(|v| v.f()));
+    let af = a.map(|v| v.f());
+    let amax = af.iter().fold(0.0f64, |m, v| m.max(v.abs()));
+    let rec = &u * &sig * &vt;
+    let back = (&rec - &af).iter().fold(0.0f64, |m, v| m.max(v.abs())) / amax.max(1e-300);
+    let r = sig.nrows();
+    let ou = (u.transpose() * &u - DMatrix::<f64>::identity(r, r)).iter().fold(0.0f64, |m, v| m.max(v.abs()));
+    let ov = (&vt * vt.transpose() - DMatrix::<f64>::identity(r, r)).iter().fold(0.0f64, |m, v| m.max(v.abs()));
+    out.line(&format!(" svdq {} {} {}", hex(back), hex(ou), hex(ov)));
+}
+
 pub fn emit_outputs<T: Sc>(out: &mut Out, prefix: &str, p: &dyn DynP<T>) {
     out.line(&format!(" {} params {}", prefix, vec_str(&p.params())));
     out.line(&opt_vec(&format!(" {} res", prefix), &p.res()));
@@ -126,6 +161,7 @@ pub fn run_state_case<T: Sc>(out: Option<&mut Out>, c: &StateCase<T>, fault: Opt
     };
     out.line(&format!("step build {}", slice_str(&c.init)));
     emit_tables(out, &c.recipe, &c.init);
+    emit_svdq(out, &c.recipe, &c.init, &c.w);
     out.line(&format!(" impl yw {}", mat_str(&prob.yw())));
     out.line(&format!(" impl eps {}", hex(crate::pbuilder::parse_eps_from_debug::<T>(&prob.debug()))));
     emit_outputs(out, "impl", prob.as_ref());
@@ -133,6 +169,7 @@ pub fn run_state_case<T: Sc>(out: Option<&mut Out>, c: &StateCase<T>, fault: Opt
         marks.push(probe.count());
         out.line(&format!("step set {}", slice_str(alpha)));
         emit_tables(out, &c.recipe, alpha);
+        emit_svdq(out, &c.recipe, alpha, &c.w);
         let av = DVector::from_vec(alpha.clone());
         let r = guarded(|| prob.set(&av));
         if let Err(m) = r {
